@@ -25,11 +25,11 @@ def specs(tier):
     if tier == 'quick':
         return [
             spec('q-S3', 'S3', 'stabilization/4.3.18', 'development/4.3',
-                 depth=7),
+                 depth=6),
             spec('skipq-M3', 'M3', 'development/4.3', 'development/4.3',
                  skip=True, depth=7),
             spec('noq-nooct-D2', 'D2', 'development/4.3', 'development/4.3',
-                 queue=False, options=['no_octopus'], pushes=1, depth=8),
+                 queue=False, options=['no_octopus'], pushes=1, depth=6),
         ]
     out = []
     admin = [['rebuild_queues'], ['delete_queues'], ['force_merge']]
